@@ -41,6 +41,8 @@ class Ctx(object):
     self.runif_calls = {}
     self.inst = []
     self.lock = threading.Lock()
+    self.times = {}
+    self.record_times = False
 
 
 def _inv(node, k):
@@ -81,6 +83,22 @@ def build_phase(node, ctx, htf, diag_enum, diagnoses_lib, plugs=None):
     if plugs is not None:
       plugs.seen(pid, plug_kwargs)
     inv = _inv(node, k)
+    ctx.times[(pid, k)] = time.time() if ctx.record_times else None
+    if inv.get('sleep') is not None:
+      if inv.get('unkillable'):
+        # a body that cannot be terminated (stuck in C code): the kill is swallowed, the body goes on
+        end = time.time() + inv['sleep']
+        while True:
+          try:
+            left = end - time.time()
+            if left <= 0:
+              break
+            time.sleep(left)
+          except BaseException:  # pylint: disable=broad-except
+            ctx.events.append('eswallow%d.%d' % (pid, k))
+      else:
+        time.sleep(inv['sleep'])
+      ctx.times[(pid, k, 'end')] = time.time() if ctx.record_times else None
     meas = inv.get('meas') or []
     for i, kind in enumerate(kinds):
       mo = meas[i] if i < len(meas) else ('pass' if kind == 'scalar' else 'ppass')
@@ -123,6 +141,8 @@ def build_phase(node, ctx, htf, diag_enum, diagnoses_lib, plugs=None):
       kw[b] = True
   if any(inv['raw'] == 'timeout' for inv in (node.get('beh') or [])):
     kw['timeout_s'] = TIMEOUT_S
+  if node.get('timeout_s') is not None:
+    kw['timeout_s'] = node['timeout_s']
   if node.get('runif') is not None:
     script = node['runif']
 
